@@ -80,6 +80,51 @@ func Check(before *world.World, _ world.Event, pass *world.Pass, after *world.Wo
 				bad("write-while-paused", "%s %s is paused but its controller sent request #%d %s", ownKey.Kind, ownKey.Name, i, r)
 			}
 		}
+		// pausing propagates: once a pass of the paused ObjectSet has completed, every
+		// ObjectSetPhase realising one of its delegated phases is paused too - otherwise the phase
+		// controller keeps writing objects listed in the paused ObjectSet
+		if pass.Ctrl == world.CtrlObjectSet && pass.Err == nil && !pass.Crashed {
+			id := world.IdentOf(ownKey, read)
+			// does an earlier phase fail its probes in what this pass saw? (the rollout loop stops there)
+			specPhases := osw.SpecPhases(read, ownKey.Namespace)
+			earlierFails := func(name string) bool {
+				for _, p := range specPhases {
+					if p.Name == name {
+						return false
+					}
+					if p.Class != "" {
+						resp, seen := v.LastResponse(osw.PhaseKey(ownKey.Name, p.Name), len(pass.Reqs))
+						st, _, og, ok := world.Condition(resp, "Available")
+						if !seen || resp == nil || !ok || st != "True" || og != world.Generation(resp) {
+							return true
+						}
+						continue
+					}
+					for _, k := range p.Objects {
+						resp, seen := v.LastResponse(k, len(pass.Reqs))
+						if !seen || resp == nil || !osw.RefProbe(resp) {
+							return true
+						}
+					}
+				}
+				return false
+			}
+			for _, dn := range delegated {
+				pk := osw.PhaseKey(ownKey.Name, dn)
+				po := after.S.Objs[pk]
+				if po == nil || !world.ControlledBy(po.Content, false, id) || kmodel.Terminating(po.Content) {
+					continue
+				}
+				pv, _ := world.Nested(po.Content, "spec", "paused")
+				if b, _ := pv.(bool); !b {
+					ident := "delegated-phase-left-unpaused"
+					if earlierFails(dn) {
+						ident = "delegated-phase-left-unpaused-behind-failing-phase"
+					}
+					bad(ident, "ObjectSet %s is paused and its controller completed a pass, but ObjectSetPhase %s of delegated phase %q is still not paused (an earlier phase fails its probes in this pass: %v)", ownKey.Name, pk.Name, dn, earlierFails(dn))
+				}
+			}
+		}
 		// still probing and reporting
 		if pass.Err != nil || len(pass.Reqs) == 0 {
 			return out
@@ -314,6 +359,7 @@ func scenarios(quick bool) []scenario {
 		{Kind: "objectset", N: 2, Mask: 0, Classes: two, Pauses: 2, Third: 1},
 		{Kind: "objectset", N: 2, Mask: 0b01, Classes: two, Pauses: 1, Third: 1},
 		{Kind: "objectset", N: 1, Mask: 0b1, Classes: two, Pauses: 2, Third: 2},
+		{Kind: "objectset", N: 2, Mask: 0b10, Classes: two, Pauses: 1, Third: 0},
 		{Kind: "deployment", Classes: []string{"ready"}, Pauses: 2, Edits: 1},
 	}
 	if !quick {
@@ -367,7 +413,7 @@ func init() {
 			if t == "thorough" {
 				return 8
 			}
-			return 4
+			return 5
 		}, Run: run, Replay: replay, Parallel: true}},
 	})
 }
